@@ -10,6 +10,7 @@ EXTENDS Naturals, Sequences, TLC, TLCExt, Json, IOUtils
 S3 == INSTANCE SM3
 S4 == INSTANCE SM4
 G == INSTANCE GCM WITH EK <- S4!CryptWithKeys
+BN == INSTANCE BigNat
 VARIABLES l, res
 Samples == ndJsonDeserialize(IOEnv.VERIF_TRACE)
 
@@ -18,6 +19,13 @@ Eval(s) ==
     [] s.f = "sm4rk"    -> S4!RoundKeys(s.key)
     [] s.f = "sm4crypt" -> S4!CryptWithKeys(s.rk, s.blk)
     [] s.f = "lmul"     -> G!LMul(s.x, s.y)
+    [] s.f = "bn2"      -> << BN!Add(s.a, s.b), BN!Mul(s.a, s.b), BN!Cmp(s.a, s.b), BN!Mod(s.a, s.m),
+                              BN!ModAdd(s.a, s.b, s.m), BN!ModSub(s.a, s.b, s.m), BN!ModMul(s.a, s.b, s.m),
+                              IF BN!Cmp(s.a, s.b) >= 0 THEN BN!Sub(s.a, s.b) ELSE BN!Sub(s.b, s.a) >>
+    [] s.f = "bnexp"    -> << BN!ModExp(s.a, s.e, s.m), BN!ModInv(s.a, s.m) >>
+    [] s.f = "bninvok"  -> BN!ModMul(s.a, BN!ModInv(s.a, s.m), s.m)       \* must be 1 (accelerated run only)
+    [] s.f = "ecmul"    -> LET E2 == INSTANCE EC WITH BigMode <- TRUE, P <- s.p, A <- s.a, B <- s.b
+                           IN E2!ScalarMulBits(s.k, s.pt, s.nbits)
 
 Init == l = 1 /\ res = <<>>
 Step == l <= Len(Samples) /\ res' = Append(res, Eval(Samples[l])) /\ l' = l + 1
